@@ -45,24 +45,47 @@ def Why.toString : Why → String
   | .touchedNotWritten => "touched-not-written"
   | .panicked => "panic"
 
-def upd {α : Type} (f : Nat → α) (k : Nat) (v : α) : Nat → α := fun x => if x = k then v else f x
+def upd {α : Type} (f : Nat → α) (k : Nat) (v : α) : Nat → α := fun x => if k = x then v else f x
 
 @[simp] theorem upd_same {α : Type} (f : Nat → α) (k : Nat) (v : α) : upd f k v k = v := by simp [upd]
 theorem upd_apply {α : Type} (f : Nat → α) (k : Nat) (v : α) (x : Nat) :
-    upd f k v x = if x = k then v else f x := rfl
+    upd f k v x = if k = x then v else f x := rfl
+
+/-- Finite table with a default (data, not closures: the driver folds the monitor over long traces). -/
+structure Tab (α : Type) where
+  items : List (Nat × α) := []
+  dflt : α
+
+def Tab.get {α : Type} (t : Tab α) (k : Nat) : α :=
+  match t.items.find? (fun p => p.1 == k) with
+  | some p => p.2
+  | none => t.dflt
+
+def Tab.set {α : Type} (t : Tab α) (k : Nat) (v : α) : Tab α := { t with items := (k, v) :: t.items }
+
+instance {α : Type} : CoeFun (Tab α) (fun _ => Nat → α) := ⟨Tab.get⟩
+
+theorem Tab.get_set {α : Type} (t : Tab α) (k : Nat) (v : α) (x : Nat) :
+    (t.set k v).get x = if k = x then v else t.get x := by
+  by_cases h : k = x
+  · subst h; simp [Tab.get, Tab.set, List.find?_cons]
+  · have h' : (k == x) = false := by simpa using h
+    simp [Tab.get, Tab.set, List.find?_cons, h', h]
+
+@[simp] theorem Tab.get_empty {α : Type} (d : α) (x : Nat) : (Tab.mk [] d).get x = d := rfl
 
 /-- Monitor state.  Per object `o`: `sch o` successful schedulings, `wr o` BatchWrites, `com o` BatchWrites
 that have been committed, `dn o` BatchWriteDones, `need o` how many Dones `StopBatchWriter` has to wait
 for; per producer `mark p` = `wr o` when its current `Enqueue(o)` was called. -/
 structure Mon where
-  sch : Nat → Nat := fun _ => 0
-  wr : Nat → Nat := fun _ => 0
-  com : Nat → Nat := fun _ => 0
-  dn : Nat → Nat := fun _ => 0
-  need : Nat → Nat := fun _ => 0
-  mark : Nat → Nat := fun _ => 0
-  lastW : Nat → Option Nat := fun _ => none
-  lastCom : Nat → Option Nat := fun _ => none
+  sch : Tab Nat := ⟨[], 0⟩
+  wr : Tab Nat := ⟨[], 0⟩
+  com : Tab Nat := ⟨[], 0⟩
+  dn : Tab Nat := ⟨[], 0⟩
+  need : Tab Nat := ⟨[], 0⟩
+  mark : Tab Nat := ⟨[], 0⟩
+  lastW : Tab (Option Nat) := ⟨[], none⟩
+  lastCom : Tab (Option Nat) := ⟨[], none⟩
   objs : List Nat := []
   stopCalled : Bool := false
   errs : List Why := []
@@ -71,21 +94,21 @@ def Mon.touch (m : Mon) (o : Nat) : List Nat := if m.objs.contains o then m.objs
 
 /-- One event.  Counters always advance; every failed check is appended to `errs`. -/
 def Mon.step (m : Mon) : Event → Mon
-  | .enqCall p o => { m with mark := upd m.mark p (m.wr o), objs := m.touch o }
+  | .enqCall p o => { m with mark := m.mark.set p (m.wr o), objs := m.touch o }
   | .hook _ => m
-  | .schedNew o => { m with sch := upd m.sch o (m.sch o + 1), objs := m.touch o }
+  | .schedNew o => { m with sch := m.sch.set o (m.sch o + 1), objs := m.touch o }
   | .schedDup _ => m
   | .enqRet p o =>
       -- an Enqueue that returned before Stop was invoked: a BatchWrite of `o` that started after the
       -- call (the (mark+1)-th) has to be committed and done before Stop returns
-      if m.stopCalled then m else { m with need := upd m.need o (max (m.need o) (m.mark p + 1)) }
+      { m with need := if m.stopCalled then m.need else m.need.set o (max (m.need o) (m.mark p + 1)) }
   | .reset _ => m
   | .write o v =>
-      { m with wr := upd m.wr o (m.wr o + 1), lastW := upd m.lastW o (some v), objs := m.touch o,
+      { m with wr := m.wr.set o (m.wr o + 1), lastW := m.lastW.set o (some v), objs := m.touch o,
                errs := if m.wr o < m.sch o then m.errs else m.errs ++ [.writeUnscheduled] }
   | .commit => { m with com := m.wr, lastCom := m.lastW }
   | .done o =>
-      { m with dn := upd m.dn o (m.dn o + 1), objs := m.touch o,
+      { m with dn := m.dn.set o (m.dn o + 1), objs := m.touch o,
                errs := if m.dn o < m.com o then m.errs else m.errs ++ [.doneBeforeCommit] }
   | .flush => m
   | .stopCall _ => { m with stopCalled := true }
